@@ -60,7 +60,8 @@ Proof. destruct x as [[[[t k] v] kr] r]. unfold event_eqb. rewrite !N.eqb_refl, 
 
 (* outside the recorded deviation: no empty value written — or no TiKV configuration among the runs *)
 Definition c12_valid (c : c12_case) : Prop :=
-  Forall (hist_ok nonempty) (h_reqs c) \/ Forall (fun r => r_eng r <> ETiKV) (h_runs c).
+  (2 <= length (h_runs c))%nat /\
+  (Forall (hist_ok nonempty) (h_reqs c) \/ Forall (fun r => tikv_eng (r_eng r) = false) (h_runs c)).
 
 Lemma nonempty_ok v : v <> [] -> nonempty v. Proof. exact (fun H => H). Qed.
 Lemma anyvalue_ok v : v <> [] -> anyvalue v. Proof. exact (fun _ => I). Qed.
@@ -76,6 +77,7 @@ Proof.
   - exact stamped_tikv.
   - apply (stamped_wrapper memkv ByValue sim_memkv). exact stamped_memkv.
   - apply (stamped_wrapper badger ByVersion sim_badger). exact stamped_badger.
+  - apply (stamped_wrapper tikv ByValue sim_tikv). exact stamped_tikv.
 Qed.
 
 Lemma plain_ok_of e : plain_ok nonempty (sim_of e).
@@ -86,12 +88,13 @@ Proof.
   - exact plain_ok_tikv.
   - apply plain_ok_wrapper. apply plain_ok_memkv.
   - apply plain_ok_wrapper. apply plain_ok_badger.
+  - apply plain_ok_wrapper. exact plain_ok_tikv.
 Qed.
 
-(* the engines that store empty values admit every value *)
-Lemma plain_any_of e : e <> ETiKV -> plain_ok anyvalue (sim_of e).
+(* the engines that store empty values accept every value *)
+Lemma plain_any_of e : tikv_eng e = false -> plain_ok anyvalue (sim_of e).
 Proof.
-  intros He. destruct e; cbn [sim_of]; try congruence.
+  intros He. destruct e; cbn [sim_of]; try discriminate.
   - apply plain_ok_memkv.
   - apply plain_ok_badger.
   - apply plain_ok_wrapper. apply plain_ok_memkv.
@@ -116,7 +119,8 @@ Qed.
 
 Lemma c12_oracle_sound c : c12_valid c -> c12_check c = true -> c12_oracle c = None.
 Proof.
-  unfold c12_valid, c12_check, c12_oracle. intros Hok Hc. destruct (h_runs c) as [|r0 rest]; [reflexivity|].
+  unfold c12_valid, c12_check, c12_oracle. intros [_ Hok] Hc. apply andb_true_iff in Hc as [_ Hc].
+  destruct (h_runs c) as [|r0 rest]; [reflexivity|].
   cbn [forallb] in Hc. apply andb_true_iff in Hc as [H0 Hr].
   assert (H : forallb (same_transcript r0) rest = true).
   { apply forallb_forall. intros r Hin. rewrite forallb_forall in Hr. destruct Hok as [Hok|Hnt].
@@ -139,3 +143,33 @@ Proof. vm_compute. reflexivity. Qed.
 
 Lemma empty_value_memkv_tikv : snd (fst (run_history memkv registry 1000 f1_history)) <> snd (fst (run_history tikv registry 1000 f1_history)).
 Proof. vm_compute. discriminate. Qed.
+
+Lemma hist_okb_ok q : hist_okb q = true -> hist_ok nonempty q.
+Proof.
+  destruct q as [k v|k v rev|k rev|k rev|a b rev limit|rev|a b|a b rev|]; cbn; try (intros _; exact I);
+    destruct v; try discriminate; intros _; discriminate.
+Qed.
+
+Lemma c12_validb_ok c : c12_validb c = true -> c12_valid c.
+Proof.
+  unfold c12_validb, c12_valid. intros H. apply andb_true_iff in H as [Hl H]. apply Nat.leb_le in Hl. split; [exact Hl|].
+  apply orb_true_iff in H as [H|H].
+  - apply andb_true_iff in H as [H _]. apply andb_true_iff in H as [H _]. rewrite forallb_forall in H.
+    left. apply Forall_forall. intros q Hq. apply hist_okb_ok. apply H. exact Hq.
+  - rewrite forallb_forall in H. right. apply Forall_forall. intros r Hr. specialize (H r Hr). unfold is_tikv in H.
+    destruct (tikv_eng (r_eng r)); [discriminate|reflexivity].
+Qed.
+
+Lemma c12_oracle_sound_checked c : c12_validb c = true -> c12_check c = true -> c12_oracle c = None.
+Proof. intros H. apply c12_oracle_sound. apply c12_validb_ok. exact H. Qed.
+
+(* the full statement, and its refutation by finding C12-F1 *)
+Definition C12_full_statement : Prop :=
+  forall A mA (SA : sim A mA) B mB (SB : sim B mB) prefix init qs,
+    run_history A prefix init qs = run_history B prefix init qs.
+
+Lemma full_statement_refuted : ~ C12_full_statement.
+Proof.
+  intros H. apply empty_value_memkv_tikv.
+  rewrite (H memkv ByValue sim_memkv tikv ByValue sim_tikv registry 1000 f1_history). reflexivity.
+Qed.
